@@ -316,8 +316,10 @@ func (w *AofRotater) closeAof() error { // ensure close() and write() are in sam
 
 		if w.filesize == headerSize {
 			err := ret(nil)
-			w.getObserver().Close(w.left, int64(0))
+			// remove the file before the observer drops the segment : a reader that lags behind
+			// must not switch to a segment that the dataset does not know any more
 			err = errors.Join(err, os.Remove(w.filepath))
+			w.getObserver().Close(w.left, int64(0))
 			if err != nil {
 				w.logger.Errorf("remove empty file : file(%s), error(%v)", w.filepath, err)
 			} else {
